@@ -1,18 +1,22 @@
 #!/bin/bash
 # usage: seeds_all.sh [tier] [ids...] — applies every /verif/seeded/<id>/patch.diff to /repo in turn, runs the owning check with
-# scratch evidence/replay directories, reverts, and prints caught / MISSED per seed. /repo must be clean.
-mkdir -p /verif/run; exec 9>/verif/run/.repo.lock; flock -x 9; export VERIF_LOCK_HELD=1   # /repo is modified below: keep concurrent check builds out
+# scratch evidence/replay directories, reverts, and prints caught / MISSED per seed. /repo must be clean. The exclusive repo
+# lock is taken per seed (apply .. revert), so that other check builds can get in between two seeds.
+mkdir -p /verif/run
 tier=${1:-quick}; shift
 cd /verif
 ids=${@:-$(ls seeded)}
-[ -z "$(git -C /repo status --porcelain)" ] || { echo "repo dirty"; exit 9; }
 for id in $ids; do
+  (
+  flock -x 9; export VERIF_LOCK_HELD=1
+  [ -z "$(git -C /repo status --porcelain)" ] || { echo "repo dirty"; exit 9; }
   prop=$(python3 -c "import json;print(json.load(open('seeded/$id/meta.json'))['property'])")
-  git -C /repo apply /verif/seeded/$id/patch.diff || { echo "$id: patch does not apply"; continue; }
+  git -C /repo apply /verif/seeded/$id/patch.diff || { echo "$id: patch does not apply"; exit 0; }
   t0=$(date +%s)
   out=$(VERIF_EVIDENCE_DIR=/verif/run/scratch-evidence VERIF_REPLAY_DIR=/verif/run/scratch-replays ./check $prop --tier $tier 2>&1); rc=$?
   git -C /repo checkout -- .
   t1=$(date +%s)
   if [ $rc = 1 ]; then echo "$id $prop caught ($((t1-t0))s)"; else echo "$id $prop MISSED rc=$rc ($((t1-t0))s)"; echo "$out" | grep -v KNOWN | tail -3; fi
+  ) 9>/verif/run/.repo.lock
 done
 find /verif/run/scratch-replays -type f -delete 2>/dev/null
